@@ -218,7 +218,7 @@ def stream_engine_py(ctx: Ctx) -> Stream:
 	rng = ctx.sub_rng('engine-py')
 	world = PyWorld(rng)
 	cases = corpus_cases(world)
-	sentences = gen_sentences(world, ctx.scale(170, 2000), ctx.scale(70, 110), 3)
+	sentences = gen_sentences(world, ctx.scale(130, 2000), ctx.scale(70, 110), 3)
 	dl = gramlib.Deadline(ctx.scale(90, 600))
 	slow = [0]
 
@@ -232,7 +232,7 @@ def stream_engine_py(ctx: Ctx) -> Stream:
 		if c:
 			cases.append(c)
 			slow[0] += c[0]['outcome'] == 'budget-exceeded'
-	for level, toks, text in sentences[:ctx.scale(130, 1600)]:
+	for level, toks, text in sentences[:ctx.scale(100, 1600)]:
 		if over():
 			break
 		for _ in range(2):
@@ -492,7 +492,7 @@ def search_cpython(ctx: Ctx) -> SearchResult:
 	purpose = walrus_ternary_sentences(world, ctx.scale(6, 40))
 	dl = gramlib.Deadline(ctx.scale(120, 900))
 	slow = 0
-	for level, toks, text in purpose + gen_sentences(world, ctx.scale(700, 5000), ctx.scale(70, 120), 3, keep_inexact=True):
+	for level, toks, text in purpose + gen_sentences(world, ctx.scale(500, 5000), ctx.scale(70, 120), 3, keep_inexact=True):
 		if dl.expired() or slow >= 3:
 			res.note = f'stopped early: wall budget {dl.seconds} s over or {slow} calls exceeded their budget'
 			break
@@ -556,7 +556,7 @@ def search_mutated(ctx: Ctx) -> SearchResult:
 			if fn.endswith('.json'):
 				with open(os.path.join(d, fn), encoding='utf-8') as f:
 					texts.extend(('corpus', t) for t in json.load(f).get('texts', []))
-	for level, toks, text in gen_sentences(world, ctx.scale(350, 2000), ctx.scale(60, 100), 3):
+	for level, toks, text in gen_sentences(world, ctx.scale(250, 2000), ctx.scale(60, 100), 3):
 		for _ in range(2):
 			mtoks, mk = gramlib.mutate_tokens(toks, rng, world.vocabulary)
 			if paren_depth(mtoks) <= 4 and block_depth(mtoks) <= 4:
@@ -704,13 +704,13 @@ def search_layout(ctx: Ctx) -> SearchResult:
 	res = SearchResult('line breaks and indentation inside brackets do not change the engine\'s tree (same derivation, one-line vs wrapped layout; CPython agrees per case)')
 	hist: Counter[str] = Counter()
 	seen: set[str] = set()
-	pool = gen_sentences(world, ctx.scale(260, 1800), 60, 3)
+	pool = gen_sentences(world, ctx.scale(180, 1800), 60, 3)
 	flat = [s for s in pool if '\\INDENT' not in s[1] and any(t in ('(', '[', '{') for t in s[1])]
 	blocks = [s for s in pool if '\\INDENT' in s[1]]
 	fixed = [['x', '=', 'f', '(', 'a', ',', 'b', ')', '\n', 'if', 'c', ':', '\n', '\\INDENT', 'y', '=', '1', '\n', '\\DEDENT'],
 		['x', '=', '[', '1', ',', '2', ']', '\n', 'while', 'c', ':', '\n', '\\INDENT', 'if', 'a', ':', '\n', '\\INDENT', 'y', '=', 'g', '(', 'a', ',', 'b', ')', '\n', '\\DEDENT', '\\DEDENT']]
 	cases: list[list[str]] = list(fixed)
-	for _ in range(ctx.scale(160, 1200)):
+	for _ in range(ctx.scale(110, 1200)):
 		toks: list[str] = []
 		for _ in range(rng.choice([1, 1, 2])):
 			if flat:
